@@ -15,8 +15,14 @@ pub trait PathBufExt<T> {
 
 impl PathBufExt<PathBuf> for PathBuf {
     fn absolute_from(&self, new_root: &Path) -> PathBuf {
-        // When the path starts with a Systemd specifier do not resolve what looks like a relative address
-        if !self.starts_with_systemd_specifier() && !self.is_absolute() {
+        // When the path starts with a Systemd specifier do not resolve what looks like a relative address:
+        // the specifier stands for a path of unknown depth, so not even ".." can be resolved lexically
+        // ("%h/../x" is not "x")
+        if self.starts_with_systemd_specifier() {
+            return self.clone();
+        }
+
+        if !self.is_absolute() {
             if !new_root.as_os_str().is_empty() {
                 return new_root.join(self).cleaned();
             } else {
